@@ -74,6 +74,38 @@ func canonVal(v *pb.TypedValue) string {
 	return "v:" + canon(v)
 }
 
+// canonUpd is the value of an update as a consumer reads it: the typed `val`
+// when it is set (the deprecated field is then only a mirror for old
+// consumers), otherwise the deprecated `value` field (bytes + encoding),
+// otherwise nothing.
+func canonUpd(u *pb.Update) string {
+	switch {
+	case u.GetVal() != nil:
+		return canonVal(u.GetVal())
+	case u.GetValue() != nil:
+		return "d:" + canon(u.GetValue())
+	}
+	return "<none>"
+}
+
+// sameUpdContent: did an update leave the value a consumer reads unchanged?
+func sameUpdContent(a, b *pb.Update) bool { return canonUpd(a) == canonUpd(b) }
+
+func showUpd(u *pb.Update) string {
+	s := showVal(u.GetVal())
+	if d := u.GetValue(); d != nil {
+		dep := fmt.Sprintf("deprecated-value(%s:%q)", d.GetType(), d.GetValue())
+		if u.GetVal() == nil {
+			return dep
+		}
+		return s + "+" + dep
+	}
+	if u.GetVal() == nil {
+		return "no-value"
+	}
+	return s
+}
+
 func showVal(v *pb.TypedValue) string {
 	if v == nil {
 		return "nil"
@@ -154,7 +186,7 @@ func showNotif(n *pb.Notification) string {
 	}
 	b.WriteString(" prefix{" + showPath(n.GetPrefix()) + "}")
 	for _, u := range n.GetUpdate() {
-		b.WriteString(" upd{" + showPath(u.GetPath()) + " = " + showVal(u.GetVal()) + "}")
+		b.WriteString(" upd{" + showPath(u.GetPath()) + " = " + showUpd(u) + "}")
 	}
 	for _, d := range n.GetDelete() {
 		b.WriteString(" del{" + showPath(d) + "}")
@@ -174,14 +206,14 @@ func valSem(n *pb.Notification) string {
 		for _, u := range n.GetUpdate() {
 			b.WriteString(model.Key(model.IndexPath(u.GetPath())))
 			b.WriteString("=")
-			b.WriteString(canonVal(u.GetVal()))
+			b.WriteString(canonUpd(u))
 			b.WriteString(";")
 		}
 		return b.String()
 	}
 	b.WriteString("S;")
 	for _, u := range n.GetUpdate() {
-		b.WriteString(canonVal(u.GetVal()))
+		b.WriteString(canonUpd(u))
 		b.WriteString(";")
 	}
 	return b.String()
@@ -191,9 +223,9 @@ func showValSem(n *pb.Notification) string {
 	var s []string
 	for _, u := range n.GetUpdate() {
 		if n.GetAtomic() {
-			s = append(s, strings.Join(model.IndexPath(u.GetPath()), "/")+"="+showVal(u.GetVal()))
+			s = append(s, strings.Join(model.IndexPath(u.GetPath()), "/")+"="+showUpd(u))
 		} else {
-			s = append(s, showVal(u.GetVal()))
+			s = append(s, showUpd(u))
 		}
 	}
 	pre := ""
@@ -725,7 +757,7 @@ func (m *monitor) notif(n *pb.Notification) (res callResult, mm *mismatch) {
 				return res, &mismatch{"withheld-with-emulation-off", fmt.Sprintf("%q was accepted (nil error) but nothing was fed although event-driven emulation is disabled", showNotif(pre))}
 			case !existed:
 				return res, &mismatch{"withheld-new-leaf", fmt.Sprintf("%q created leaf %s (nil error) but nothing was fed", showNotif(pre), showKey(key))}
-			case old.ptr.GetAtomic() || len(old.ptr.GetUpdate()) != 1 || !proto.Equal(old.ptr.GetUpdate()[0].GetVal(), pre.GetUpdate()[0].GetVal()):
+			case old.ptr.GetAtomic() || len(old.ptr.GetUpdate()) != 1 || !sameUpdContent(old.ptr.GetUpdate()[0], pre.GetUpdate()[0]):
 				return res, &mismatch{"withheld-changed-value", fmt.Sprintf("%q was accepted and withheld from the feed, but it changed the value of leaf %s: previous %s", showNotif(pre), showKey(key), showValSem(old.ptr))}
 			}
 			m.inc("oracle_withheld_unchanged_value_justified", 1)
@@ -739,7 +771,7 @@ func (m *monitor) notif(n *pb.Notification) (res callResult, mm *mismatch) {
 				return res, &mismatch{"fed-entry-differs-from-update", fmt.Sprintf("%q was fed as %q", showNotif(pre), showEntry(fe))}
 			}
 			if old, existed := m.prev[key]; existed && m.ed && !old.ptr.GetAtomic() && len(old.ptr.GetUpdate()) == 1 &&
-				proto.Equal(old.ptr.GetUpdate()[0].GetVal(), pre.GetUpdate()[0].GetVal()) {
+				sameUpdContent(old.ptr.GetUpdate()[0], pre.GetUpdate()[0]) && pre.GetUpdate()[0].GetVal() != nil {
 				if _, isJSON := pre.GetUpdate()[0].GetVal().GetValue().(*pb.TypedValue_JsonVal); !isJSON {
 					m.inc("diag_unchanged_scalar_fed_with_emulation_on", 1)
 				}
@@ -993,6 +1025,7 @@ type world struct {
 	last     *op
 	st       stats
 	encBias  int // the encoding most notifications of this history use
+	deps     []*pb.Value
 	pending  []op
 }
 
@@ -1105,10 +1138,42 @@ func newWorld(rng *rand.Rand, c cfg, st stats) *world {
 			w.vals = append(w.vals, fam[i])
 		}
 	}
+	for i := 0; i < 3; i++ {
+		w.deps = append(w.deps, allDeprecated[rng.Intn(len(allDeprecated))])
+	}
 	return w
 }
 
 func (w *world) val() *pb.TypedValue { return w.vals[w.rng.Intn(len(w.vals))] }
+
+var allDeprecated = []*pb.Value{
+	{Value: []byte("1"), Type: pb.Encoding_JSON}, {Value: []byte("2"), Type: pb.Encoding_JSON},
+	{Value: []byte("1"), Type: pb.Encoding_BYTES}, {Value: []byte{0, 1}, Type: pb.Encoding_BYTES},
+	{Value: []byte("up"), Type: pb.Encoding_ASCII}, {Value: []byte("down"), Type: pb.Encoding_ASCII},
+	{Value: []byte(`{"a":1}`), Type: pb.Encoding_JSON_IETF}, {Value: []byte("1"), Type: pb.Encoding_PROTO},
+}
+
+// fill gives an update its value: mostly the typed `val`; a share carries the
+// value in the deprecated `value` field only (bytes + encoding), some carry
+// both (the deprecated bytes mirror the typed value, as a producer that fills
+// both for old consumers does), some carry neither.
+func (w *world) fill(u *pb.Update) {
+	u.Val, u.Value = nil, nil
+	switch x := w.rng.Intn(100); {
+	case x < 70:
+		u.Val = w.val()
+		w.st["gen_update_val_only"]++
+	case x < 85:
+		u.Value = w.deps[w.rng.Intn(len(w.deps))]
+		w.st["gen_update_deprecated_value_only"]++
+	case x < 94:
+		u.Val = w.val()
+		u.Value = &pb.Value{Value: []byte(showVal(u.Val)), Type: pb.Encoding_ASCII}
+		w.st["gen_update_val_and_deprecated_value"]++
+	default:
+		w.st["gen_update_no_value_at_all"]++
+	}
+}
 
 func (w *world) ts() int64 {
 	t := w.clock + int64(w.rng.Intn(7)) - 3
@@ -1289,7 +1354,9 @@ func (w *world) scalarUpdate(ls leafSpec, k, enc int) (*pb.Update, string) {
 	} else {
 		p = w.pathFor(penc, rest, po)
 	}
-	return &pb.Update{Path: p, Val: w.val()}, note
+	u := &pb.Update{Path: p}
+	w.fill(u)
+	return u, note
 }
 
 func (w *world) genSingle() op {
@@ -1373,9 +1440,9 @@ func (w *world) genMulti() op {
 		if lastU != nil && w.rng.Intn(6) == 0 {
 			// The same leaf again, often with the same value: suppression
 			// inside one multi-update call.
-			u := &pb.Update{Path: lastU.Path, Val: lastU.Val}
+			u := &pb.Update{Path: lastU.Path, Val: lastU.Val, Value: lastU.Value}
 			if w.rng.Intn(2) == 0 {
-				u.Val = w.val()
+				w.fill(u)
 			}
 			n.Update = append(n.Update, u)
 			continue
@@ -1417,7 +1484,9 @@ func (w *world) genAtomic() op {
 		if w.cfg.Mixed && w.rng.Intn(3) == 0 {
 			penc = 1 - enc
 		}
-		n.Update = append(n.Update, &pb.Update{Path: w.pathFor(penc, subs[w.rng.Intn(len(subs))], ""), Val: w.val()})
+		au := &pb.Update{Path: w.pathFor(penc, subs[w.rng.Intn(len(subs))], "")}
+		w.fill(au)
+		n.Update = append(n.Update, au)
 	}
 	return op{kind: "notif", shape: "atomic", target: t, share: share, n: n}
 }
@@ -1856,7 +1925,7 @@ func main() {
 			"Mode history: 4000 (thorough 80000) histories of plain input; modes mixed-encoding 600 (8000), path-origin 400 (4000), kind-flip 400 (4000) add one input class each (signature suffix). A history counts as distinct non-trivial when the oracle judged at least one fed update, one rejected update, one announced removal and one multi-notification (with emulation on also one suppression); hashed by mode, emulation flag and the rendered operation list.",
 		Assumptions: []string{
 			"a consumer replays the feed with the index rule of subscribe.Server.Update: target + origin of the prefix, then prefix and path elements (model.Shadow, model.MatchQ for deletes)",
-			"'value unchanged' is judged with proto.Equal on the TypedValue; value.Equal (the code's test) is at most as wide",
+			"the value of an update is its typed `val` when set, otherwise its deprecated `value` field (bytes + encoding), otherwise nothing; 'unchanged' means that value serialises identically (value.Equal, the code's test, is at most as wide; updates without `val` are never suppressed by the code)",
 			"single goroutine; cache.Now is a virtual clock that is constant within a step and strictly increases between steps; no future threshold; no latency windows",
 			"Add is only called for targets that are absent (Add of a present target silently replaces it without any feed entry; the statement does not quantify over that)",
 			"update paths contain no '*' elements and are never empty as a whole; the harness never mutates a message after building it",
